@@ -28,7 +28,7 @@ for f in d['findings']:
         f['what'] = f"fixed: property={f['property']} {c} {w}"
     elif f['status'] == 'fixed':
         print('WARNING: fixed finding without known commit', f['id'])
-    if f['id'] == 'F23':
+    if f['id'] in ('F23', 'F27'):
         f['property'] = 'C08,C13'
 p.write_text(json.dumps(d, indent=1) + '\n')
 print(len(log), 'fix commits on main;', sum(f['status'] == 'fixed' for f in d['findings']), 'fixed,',
